@@ -237,7 +237,14 @@ def shard(cfg):
             rend = _systematic_renderings(ir)
             poison = POISONS[k % len(POISONS)] if k % 5 == 0 else None
             try:
-                check_ir(ir, rend, rec, poison=poison)
+                from vlib.core import cpu_guard, CaseHang
+
+                try:
+                    with cpu_guard(30.0):
+                        check_ir(ir, rend, rec, poison=poison)
+                except CaseHang as h:
+                    raise PropertyViolation("hang", f"compiling the spellings of {G.canonical(ir)!r} did not finish: {h}",
+                                            extra={"bucket": "hang"})
             except PropertyViolation as v:
                 out_viol.append(violation_record(PROPERTY, v, _payload(ir, rend, poison)))
                 break
@@ -257,7 +264,7 @@ def shard(cfg):
         check_ir(ir, rend, rec, poison=poison)
 
     n, v, herr = hyp_search(
-        strat, body, seed=cfg["seed"] * 1000 + cfg["shard"], max_examples=cfg["examples"]
+        strat, body, seed=cfg["seed"] * 1000 + cfg["shard"], max_examples=cfg["examples"], case_cpu_s=30.0
     )
     res = rec.result()
     if v is not None:
